@@ -40,6 +40,10 @@ MARK_OUT = '<!--%s-->' % MARK
 PROFILES = [
     # name, weight, knobs
     ('repeat-ctx', 4, dict(pool=3, cdata=0.15, comments=0.05, max_nodes=16, safe_text=0.1)),
+    # few tags, few attributes, two pooled texts: the same TEXT / START / END recurs inside and outside
+    # script, pre and CDATA in most streams
+    ('dense-repeats', 6, dict(pool=2, pool_prob=0.95, cdata=0.25, max_nodes=22, attr_counts=[0, 0, 0, 1],
+                              tags=['div', 'script', 'pre', 'p', 'br', 'style', 'textarea', 'b'])),
     ('ws', 3, dict(pool=3, texts='ws', cdata=0.1, max_nodes=14, safe_text=0.15)),
     ('xhtml-ns', 2, dict(ns='xhtml', root=True, pool=3, cdata=0.1, max_nodes=14)),
     ('xhtml-ns-events', 1, dict(ns='xhtml', root=True, ns_events=True, pool=3, cdata=0.1, max_nodes=12)),
